@@ -62,7 +62,7 @@ RENDERS = ["lf", "crlf", "nofinal"]
 BULK_RUNS = 2
 FINDING = "csv-bigint-null"
 PER_SIGNATURE = 3
-CLASSES = ["valid", "null", "allnull", "malformed", "short", "badnum", "range", "extra", "empty"]
+CLASSES = ["valid", "null", "allnull", "malformed", "short", "badnum", "range", "extra", "empty", "casetwin", "toobig"]
 RULE = ("scenarios are all record streams of EmitFrom..MaxRecs records over the record classes of CsvImport.tla, enumerated by TLC "
         "per configuration (schema x mapping x separator); each is executed under %d line-end renderings (= evaluations). "
         "A scenario is non-trivial when the specification expects at least one record stored and at least one rejected; "
